@@ -66,6 +66,9 @@ def record(kind, mid, prop, chk, tests_ok, rc, first, tier):
 def main():
     args = sys.argv[1:]
     mode = args[0] if args else "calibration"
+    if mode not in ("calibration", "seeded", "refactor", "x"):
+        print("usage: mutation_run.py calibration|seeded|refactor [id-substring ...] [--tier quick|thorough] [--checks C01,..|all] [--sandbox NAME [--cleanup]]")
+        sys.exit(2)
     # positional selectors = everything that is not an option or an option's value
     opt_with_value = ("--tier", "--checks", "--sandbox")
     sel = [a for i, a in enumerate(args[1:], 1) if not a.startswith("--") and args[i - 1] not in opt_with_value]
